@@ -76,7 +76,8 @@ func readMarker(r xml.TokenReader, how int) (n string, rerr string) {
 }
 
 // idShapes: how the request names itself. 0: the caller supplies the id; 1: an
-// empty id attribute; 2: no id attribute (the library chooses the id in both).
+// empty id attribute; 2: no id attribute (the library chooses the id in both);
+// 3: id supplied, element name qualified by the stream's namespace.
 func correlatedBody(kind string, nreq int, planSet []int, idShapes ...int) nd.Body {
 	return func(c *nd.Ctx) nd.Result {
 		idShape := 0
@@ -214,8 +215,14 @@ func correlatedBody(kind string, nreq int, planSet []int, idShapes ...int) nd.Bo
 					case "message":
 						st.Attr = append(st.Attr, xml.Attr{Name: xml.Name{Local: "type"}, Value: "chat"})
 					}
-					if idShape == 1 {
+					switch idShape {
+					case 1:
 						st.Attr = append(st.Attr, xml.Attr{Name: xml.Name{Local: "id"}, Value: ""})
+					case 3:
+						// the id is given and the element name already carries the
+						// stream's namespace (a stanza rebuilt from a received one)
+						st.Name.Space = ns
+						st.Attr = append(st.Attr, xml.Attr{Name: xml.Name{Local: "id"}, Value: id})
 					}
 					payload = xmlstream.Wrap(payload, st)
 				}
@@ -306,7 +313,7 @@ func correlatedBody(kind string, nreq int, planSet []int, idShapes ...int) nd.Bo
 		}
 		desc := fmt.Sprintf("%s requests=%v", kind, planNames)
 		if idShape != 0 {
-			desc += fmt.Sprintf(" id-shape=%s", []string{"given", "empty-attribute", "absent"}[idShape])
+			desc += fmt.Sprintf(" id-shape=%s", []string{"given", "empty-attribute", "absent", "given-with-namespaced-name"}[idShape])
 		}
 		c.Note("%s outcome=%s", desc, out.Kind)
 		for _, t := range out.Trace {
@@ -438,9 +445,9 @@ func init() {
 			}
 			return []drv.Part{
 				{Name: "iq-1", Desc: "one IQ requester", Body: correlatedBody("iq", 1, all), MaxDev: pre + 1, ShardLevels: 3, Budget: b, Env: env},
-				{Name: "ids-iq", Desc: "one IQ requester whose request carries an empty or no id attribute (the library chooses the id)", Body: correlatedBody("iq", 1, all, 1, 2), MaxDev: pre, ShardLevels: 3, Budget: b, Env: env},
-				{Name: "ids-message", Desc: "one tracked message with an empty or no id attribute", Body: correlatedBody("message", 1, all, 1, 2), MaxDev: pre, ShardLevels: 3, Budget: b, Env: env},
-				{Name: "ids-presence", Desc: "one tracked presence with an empty or no id attribute", Body: correlatedBody("presence", 1, all, 1, 2), MaxDev: pre, ShardLevels: 3, Budget: b, Env: env},
+				{Name: "ids-iq", Desc: "one IQ requester whose request carries an empty or no id attribute (the library chooses the id)", Body: correlatedBody("iq", 1, all, 1, 2, 3), MaxDev: pre, ShardLevels: 3, Budget: b, Env: env},
+				{Name: "ids-message", Desc: "one tracked message with an empty or no id attribute", Body: correlatedBody("message", 1, all, 1, 2, 3), MaxDev: pre, ShardLevels: 3, Budget: b, Env: env},
+				{Name: "ids-presence", Desc: "one tracked presence with an empty or no id attribute", Body: correlatedBody("presence", 1, all, 1, 2, 3), MaxDev: pre, ShardLevels: 3, Budget: b, Env: env},
 				{Name: "iq-2", Desc: "two IQ requesters", Body: correlatedBody("iq", 2, two), MaxDev: pre - 1, ShardLevels: 3, Budget: b, Env: env},
 				{Name: "message-1", Desc: "one tracked message", Body: correlatedBody("message", 1, all), MaxDev: pre + 1, ShardLevels: 3, Budget: b, Env: env},
 				{Name: "presence-1", Desc: "one tracked presence", Body: correlatedBody("presence", 1, all), MaxDev: pre + 1, ShardLevels: 3, Budget: b, Env: env},
